@@ -87,6 +87,24 @@ def direct_cases(tier, seed):
     for (line, s, v) in rng.sample(cases, min(len(cases), n // 5)):
         kind, rest = line.split(" ", 1)
         extra.append(("%sd %s" % (kind, rest), s, v))
+    # brackets nested deeper than a machine word has bit pairs, closed over several lines; characters whose code point ends in the
+    # byte of an ASCII bracket (U+017B ends in 7B, U+015B in 5B, U+0129 in 29, U+597D in 7D, U+0228 in 28, U+025D in 5D): not brackets
+    for k in range(max(4, n // 80)):
+        depth = rng.choice([31, 32, 33, 34, 40, 64, 65, 70])
+        opens = [rng.choice([0x28, 0x5b, 0x7b]) for _ in range(depth)]
+        closer = {0x28: 0x29, 0x5b: 0x5d, 0x7b: 0x7d}
+        cl = [closer[c] for c in reversed(opens)]
+        cut = rng.randint(1, depth - 1)
+        s = opens + [0x0a] + cl[:cut] + [0x0a] + cl[cut:] + [0x0a, 0x78, 0x0a]
+        cases.append(("1 %s" % encb(utf8(s)), s, True))
+    for k in range(max(6, n // 60)):
+        odd = [0x17b, 0x15b, 0x129, 0x597d, 0x228, 0x25d]
+        s = []
+        for _ in range(rng.randint(1, 3)):
+            s += [rng.choice(odd + [0x61, 0x20]) for _ in range(rng.randint(1, 5))] + rng.choice([[0x0a], [0x0d, 0x0a]])
+        s += [0x61, 0x62, 0x63, 0x0a]
+        v = rng.random() < 0.8
+        cases.append(("%d %s" % (v, encb(utf8(s))), s, v))
     # input longer than the reader's buffer (8 KiB at a time): characters of 2-4 bytes lying ACROSS the 8192 / 16384 byte
     # marks, in one long line and in many short lines
     for d in range(4):
